@@ -1188,6 +1188,29 @@ func (h *host) driverOp(a *actor, st *Step, idx int) bool {
 		if ok {
 			h.record(Event{Actor: "driver", Kind: "driver", Call: "state", Step: idx, Tag: st.Tag, Text: string(s.AsJSON())})
 		}
+	case "extdir.set":
+		// make the extensions directory contain exactly these files
+		// (idempotent: entries that are already right are not touched, an initialisation may be listing the directory)
+		dir := filepath.Join(h.tmpRoot, "opt", "extensions")
+		os.MkdirAll(dir, 0o755)
+		want := map[string]bool{}
+		for _, n := range st.Events {
+			want[n] = true
+		}
+		have := map[string]bool{}
+		if ents, err := os.ReadDir(dir); err == nil {
+			for _, e := range ents {
+				have[e.Name()] = true
+				if !want[e.Name()] {
+					os.RemoveAll(filepath.Join(dir, e.Name()))
+				}
+			}
+		}
+		for _, n := range st.Events {
+			if !have[n] {
+				h.addExtEntry(DirEntry{Name: n, Kind: "file"})
+			}
+		}
 	case "extdir.add":
 		h.addExtEntry(DirEntry{Name: st.Name, Kind: st.Flag})
 	case "extdir.remove":
